@@ -39,7 +39,8 @@ FO = ['sdc11073.mdib.providermdib.ProviderMdib._transaction_manager', 'sdc11073.
       'sdc11073.provider.subscriptionmgr_base.SubscriptionsManagerBase.send_to_subscribers',
       'sdc11073.provider.subscriptionmgr_async.SubscriptionsManagerBaseAsync.send_to_subscribers']
 SK = ['metric', 'metrics_two_mds', 'alert', 'component', 'operational', 'context_new_and_update']
-DK = ['update_descriptor_and_state', 'create', 'delete_leaf', 'delete_subtree', 'create_in_second_mds', 'delete_child_then_parent']
+DK = ['update_descriptor_and_state', 'create', 'delete_leaf', 'delete_subtree', 'create_in_second_mds', 'delete_child_then_parent',
+      'update_rt_sample_array_descriptor', 'update_rt_and_metric_descriptor', 'update_alert_and_context_descriptor']
 RK = ['metric_nested', 'context_nested', 'alert_flat']
 E3_STUBS = ['provider = tests.mockstuff.SomeDevice (70041_MDIB_Final.xml), MockWsDiscovery, no HTTP server; '
             'send_to_subscribers of every subscriptions manager is wrapped to log a send event and record (action, MdibVersion)',
@@ -77,7 +78,168 @@ def obligations(tier):
                           bounds=f'{len(combo)} concurrent writer threads ({", ".join(combo)}), {mgr} subscription manager; all '
                                  'interleavings of the recorded lock / version-write / send events',
                           claim='no interleaving hands a subscriptions manager a report with a lower MdibVersion after a higher one'))
+    for kd in (('metric', 'context') if tier == 'quick' else ('metric', 'context', 'alert', 'component')):
+        for nw in ((1,) if tier == 'quick' else (1, 2)):
+            obs.append(Ob(f'C04.periodic.retrievability.vs.{kd}.w{nw}', 'checks.C04', 'ob_periodic', kind='py', timeout=240,
+                          params={'kind': kd, 'writers': nw},
+                          functions=['sdc11073.provider.periodicreports.PeriodicReportsHandler._periodic_reports_send_loop',
+                                     'sdc11073.mdib.providermdib.ProviderMdib._transaction_manager'],
+                          stubs=E3_STUBS[:1] + ['one iteration of the real _periodic_reports_send_loop: IntervalTimer replaced by a '
+                                                'stub whose wait returns at once and ends the loop after this iteration; hosted '
+                                                'services replaced by a capture of the PeriodicStates handed over',
+                                                'retrievability_periodic = one period with a metric, a vmd, an alert condition and '
+                                                'the location context descriptor'],
+                          bounds=f'1 iteration of the retrievability-driven periodic loop x {nw} committing {kd} transaction(s); all '
+                                 'interleavings of the recorded lock / mdib_version / table events',
+                          claim='the state copies of a periodic report show the values of the MdibVersion they are labelled with'))
     return obs
+
+
+# ---------------------------------------------------------------- E3: periodic (retrievability) loop vs. writers
+
+def _periodic_reader(dev):
+    import contextlib
+    import io
+    import types
+    from sdc11073.provider import periodicreports as pr
+    mdib = dev.mdib
+    pmn = mdib.data_model.pm_names
+    handles = [sorted(d.Handle for d in mdib.descriptions.NODETYPE.get(q))[0]
+               for q in (pmn.NumericMetricDescriptor, pmn.VmdDescriptor, pmn.AlertConditionDescriptor, pmn.LocationContextDescriptor)]
+    mdib.retrievability_periodic.clear()
+    mdib.retrievability_periodic[1000] = handles
+
+    def reader():
+        got = []
+
+        class Srv:
+            def __getattr__(self, name):
+                return lambda periodic_states_list, _vg: got.extend((name, ps.mdib_version, ps.states) for ps in periodic_states_list)
+        srv = Srv()
+        h = pr.PeriodicReportsHandler(mdib, types.SimpleNamespace(state_event_service=srv, context_service=srv), None)
+
+        class Timer:
+            def __init__(self, **_kw):
+                pass
+
+            def remaining_time(self):
+                return 0
+
+            def wait_next_interval_begin(self):
+                h._run_periodic_reports_thread = False      # this iteration is the last one
+        real_timer, real_sleep = pr.intervaltimer.IntervalTimer, pr.time.sleep
+        pr.intervaltimer = types.SimpleNamespace(IntervalTimer=Timer)
+        h._run_periodic_reports_thread = True
+        try:
+            with contextlib.redirect_stdout(io.StringIO()):      # (the loop prints the number of context states)
+                h._periodic_reports_send_loop()
+        finally:
+            from sdc11073 import intervaltimer
+            pr.intervaltimer = intervaltimer
+        reader.last = got
+        return got
+    return reader, handles
+
+
+def _periodic_ref(mdib, handles):
+    from harness.mdibkit import canon_container
+    out = {}
+    for h in handles:
+        st = mdib.states.descriptor_handle.get_one(h, allow_none=True)
+        if st is not None:
+            out[h] = canon_container(st)
+        for cs in mdib.context_states.descriptor_handle.get(h, []):
+            out[cs.Handle] = canon_container(cs)
+    return out
+
+
+def _replay_periodic(rec, dev, p, schedule):
+    from checks.C07 import _writer
+    from harness.mdibkit import canon_container
+    mdib = dev.mdib
+    reader, handles = _periodic_reader(dev)
+    refs = {mdib.mdib_version: _periodic_ref(mdib, handles)}
+
+    def take_ref(_m, _t):
+        lab = rec.label()
+        rec.set_label(None)
+        try:
+            refs[mdib.mdib_version] = _periodic_ref(mdib, handles)
+        finally:
+            rec.set_label(lab)
+    mdib.post_commit_handler = take_ref
+    acts = {'R': reader}
+    base = mdib.mdib_version
+    for i in range(p['writers']):
+        acts[f'W{i}'] = _writer(dev, p['kind'], 100 + base + i)
+    rec.start_replay(schedule)
+    results, errors = rec.run_threads(acts)
+    mdib.post_commit_handler = None
+    if rec.failed or errors or 'R' not in results:
+        return 'ok', f'replay could not follow the schedule ({rec.failed or errors})'
+    for name, version, states in results['R']:
+        if version not in refs:
+            return 'periodic-states-labelled-with-a-version-never-committed', f'{name}: label {version}, committed {sorted(refs)}'
+        for st in states:
+            key = st.Handle if st.is_context_state else st.DescriptorHandle
+            if canon_container(st) != refs[version].get(key):
+                return 'periodic-state-copy-differs-from-mdib-at-labelled-version', \
+                    f'{name}: copy of {key} labelled MdibVersion {version} has StateVersion {st.StateVersion}, the MDIB at that ' \
+                    f'version had another content (schedule {schedule})'
+    if not results['R']:
+        return 'no-periodic-states-handed-over', 'the loop iteration produced nothing'
+    return 'ok', ''
+
+
+def ob_periodic(ctx):
+    import z3
+    from checks.C07 import _build as build7, _violation, _writer
+    from vf import sched
+    p = ctx.params
+    t0 = time.time()
+    rec, dev = build7()
+    reader, _handles = _periodic_reader(dev)
+    rec.taint = True        # which read of mdib_version becomes the LABEL of the copies (the report header reads it again, later)
+    templates = {'R': rec.record(reader)}
+    rec.taint = False
+    label_reads = {getattr(v, 'src', None) for _n, v, _s in reader.last}
+    if None in label_reads or not label_reads:
+        label_reads = None      # label computed, not passed through: every read of mdib_version counts
+    for i in range(p['writers']):
+        templates[f'W{i}'] = rec.record(_writer(dev, p['kind'], i + 1))
+    s, order = sched.encode(templates)
+    queries = 1
+    if str(s.check()) != 'sat':
+        return {'verdict': 'error', 'reason': 'base constraints unsatisfiable'}
+    if not sched.idx_of(templates['R'], 'read', 'mdib_version'):
+        return {'verdict': 'error', 'reason': 'the recorded loop iteration never read mdib_version'}
+    clauses = _violation(sched, templates, order, version_reads=label_reads)
+    s.add(z3.Or(*clauses) if clauses else z3.BoolVal(False))
+    sample = {'templates': {k: [f'{a}:{b}' for a, b in v] for k, v in templates.items()},
+              'label_reads': sorted(label_reads) if label_reads else 'all'}
+    spurious = 0
+    while True:
+        r = str(s.check())
+        queries += 1
+        if r == 'unsat':
+            return {'verdict': 'confirmed', 'reach': True, 'queries': queries, 'solver_s': round(time.time() - t0, 2),
+                    'engine': 'sched(z3 Int order variables)', 'sample': sample,
+                    'detail': f'label of the copies = read event {sample["label_reads"]} of the loop template; {len(clauses)} violation patterns over {sum(len(v) for v in templates.values())} events; '
+                              f'{spurious} spurious models refuted by replay'}
+        if r != 'sat':
+            return {'verdict': 'inconclusive', 'reason': 'solver returned ' + r}
+        model = s.model()
+        schedule = sched.schedule_from_model(model, order)
+        label, detail = _replay_periodic(rec, dev, p, schedule)
+        if label != 'ok':
+            return {'verdict': 'counterexample', 'label': label, 'replayed': True, 'queries': queries, 'detail': detail,
+                    'witness': {'params': p, 'schedule': [list(x) for x in schedule], 'periodic': True},
+                    'engine': 'sched(z3 Int order variables)', 'sample': sample}
+        spurious += 1
+        if spurious >= 12 or time.time() - t0 > ctx.timeout * 0.8:
+            return {'verdict': 'inconclusive', 'queries': queries,
+                    'reason': f'{spurious} models of the abstraction did not reproduce on the real code; budget exhausted ({detail})'}
+        s.add(z3.Or([order[k] != model[order[k]] for k in order]))
 
 
 # ---------------------------------------------------------------- E3 ordering machinery
@@ -194,6 +356,11 @@ def _replay_order(rec, dev, sent, p, schedule):
 
 def replay(ctx):
     w = ctx.params['witness']
+    if w.get('periodic'):
+        from checks.C07 import _build as build7
+        rec, dev = build7()
+        label, detail = _replay_periodic(rec, dev, w['params'], [tuple(x) for x in w['schedule']])
+        return {'verdict': 'counterexample' if label != 'ok' else 'confirmed', 'label': label, 'detail': detail}
     rec, dev, sent = _build(w['params']['mgr'])
     label, detail = _replay_order(rec, dev, sent, w['params'], [tuple(x) for x in w['schedule']])
     return {'verdict': 'counterexample' if label != 'ok' else 'confirmed', 'label': label, 'detail': detail}
